@@ -82,6 +82,8 @@ type Engine struct {
 	MaxDecisions int
 	decided      map[string]bool
 	sched        *scheduler
+	preemptBound int
+	syncMaps     map[*value]map[any]value
 	budgetAt     int64
 	budgetMsg    string
 	TimeoutMs   int
@@ -258,6 +260,8 @@ func (e *Engine) resetPath() {
 	e.decided = map[string]bool{}
 	e.budgetAt = 0
 	e.sched = nil
+	e.preemptBound = -1
+	e.syncMaps = map[*value]map[any]value{}
 	if e.depth > 0 {
 		e.send(fmt.Sprintf("(pop %d)", e.depth))
 	}
